@@ -101,24 +101,25 @@ Definition enc_step (r : option err * dmodel) : list Z := verdict_code (fst r) :
 Definition run_bare (steps : list step) (peers : list (list otab)) : list (list (option err * dmodel)) :=
   map (fun os => run_steps empty_model steps (map oracle_of os)) peers.
 
-(* instance histories: state = (stored model, is an instance running).
+(* instance histories: state = (stored model, model in memory, is an instance running).
    GraphDatabase::update_data_model applies the system model and the new version to a copy of the
-   stored model; on success it is stored and becomes the model in memory, on refusal nothing changes
-   (the model in memory is the stored one: every successful call makes them equal) *)
-Fixpoint run_inst_obs (stored : dmodel) (running : bool) (steps : list (bool * step)) (os : list otab)
+   stored model, has the writer store it (storage_refuses: the database refuses its indexes) and
+   only then makes it the model in memory; a refusal of either kind changes neither and is
+   reported; a refused start leaves no instance *)
+Fixpoint run_inst_obs (stored mem : dmodel) (running : bool) (steps : list (bool * step)) (os : list otab)
   : list (bool * option (dmodel * dmodel)) :=
   match steps with
   | [] => []
   | (is_start, s) :: r =>
-      if negb is_start && negb running then (false, None) :: run_inst_obs stored running r (tl os)
+      if negb is_start && negb running then (false, None) :: run_inst_obs stored mem running r (tl os)
       else
       let o := oracle_of (hd (mkOT [] [] []) os) in
-      let '(M', e) := upd o (s_sys s) stored (s_ver s) in
-      (* M' = stored when refused; a refused start leaves no instance, a refused run-time update
-         leaves the instance as it was; the caller is told *)
-      let api_ok := is_none e in
-      let running' := if is_start then is_none e else true in
-      (api_ok, if running' then Some (M', M') else None) :: run_inst_obs M' running' r (tl os)
+      let '(W, e) := upd o (s_sys s) stored (s_ver s) in
+      let ok := is_none e && negb (storage_refuses (s_ver s)) in
+      let stored' := if ok then W else stored in
+      let mem' := if ok then W else if is_start then stored else mem in     (* a start begins with a fresh value *)
+      let running' := if is_start then ok else true in
+      (ok, if running' then Some (mem', stored') else None) :: run_inst_obs stored' mem' running' r (tl os)
   end.
 Definition enc_inst (x : bool * option (dmodel * dmodel)) : list Z :=
   zb (fst x) :: match snd x with
@@ -129,7 +130,7 @@ Definition enc_inst (x : bool * option (dmodel * dmodel)) : list Z :=
 Definition run_C15 (c : c15case) : list Z :=
   match c with
   | CBare steps peers => flat_map (fun p => flat_map enc_step p) (run_bare steps peers)
-  | CInst steps os => flat_map enc_inst (run_inst_obs empty_model false steps os)
+  | CInst steps os => flat_map enc_inst (run_inst_obs empty_model empty_model false steps os)
   end.
 
 (* ---------------------------------------------------------------- the property's own oracle *)
@@ -295,6 +296,16 @@ Fixpoint refused_unchanged (M : dmodel) (l : list (option err * dmodel)) : Prop 
   match l with
   | [] => True
   | (e, M') :: r => (e <> None -> M' = M) /\ refused_unchanged M' r
+  end.
+
+(* instance histories: at every step the model in memory is the stored one, a refused step —
+   by the data model rules or by the database — leaves the store as it was, an accepted one keeps
+   the identifiers *)
+Fixpoint inst_chain (stored : dmodel) (l : list (bool * option (dmodel * dmodel))) : Prop :=
+  match l with
+  | [] => True
+  | (ok, Some (mem, sto)) :: r => mem = sto /\ (ok = false -> sto = stored) /\ keeps_ids stored sto /\ inst_chain sto r
+  | (ok, None) :: r => ok = false /\ inst_chain stored r
   end.
 
 (* what peers must agree on: was the version accepted, and the model afterwards (which error a
